@@ -507,6 +507,7 @@ def run(ctx):
 
     d4_codec(db, rep)
     d4b_composite_codec(db, rep)
+    d10_var_table_writers(db, rep)
 
     if ctx.tier == "thorough":
         d5(ctx, rep)
@@ -566,3 +567,60 @@ def d4b_composite_codec(db, rep, rule="D4b-COMPOSITE-CODEC"):
                   "%s writes a string as %s but %s reads it back as %s: the two agree only while the value fits the smaller primitive (a length of 255 "
                   "or more is an escape byte for the variable-width integer): the rest of the string is then parsed as bytecode" % (wname, kw, rname, kr), line=r.line)
     return n
+
+
+def d10_var_table_writers(db, rep, rule="D10-VAR-TABLE-WRITERS"):
+    """D10: the bytecode names operands by ABSOLUTE slot number but declares variables without one: the writer emits the used
+    slots of each class in order and the reader re-creates them densely from the first slot of the class.  The two agree only
+    while the slots of a class are filled densely from its start, which the constructors of orcprogram.c guarantee (slot =
+    base + per-class counter).  Any other store to OrcProgram.vars[].size - in particular clearing one - can leave a hole,
+    after which every later variable of the class is renumbered by the round trip while the instructions keep the old
+    numbers.  Who-may-write: only functions of orcprogram.c store to it, and none stores the constant 0."""
+    n = 0
+    for f in db.all_functions():
+        if not f.relfile.startswith("orc/") or f.body is None:
+            continue
+        progs = {p["name"] for p in f.params if "OrcProgram *" in (p.get("ty") or "") and "**" not in (p.get("ty") or "")}
+        for x in f.walk():
+            if x.k == "VarDecl" and "OrcProgram *" in (x.ty or "") and "**" not in (x.ty or ""):
+                progs.add(x.name)
+        if not progs:
+            continue
+        # local pointers into P->vars[]
+        valias = set()
+        for x in f.walk():
+            src = None
+            if x.k == "VarDecl" and "OrcVariable *" in (x.ty or "") and x.c and x.c[0] is not None:
+                src, nm = x.c[0], x.name
+            elif x.k == "BinaryOperator" and x.op == "=" and strip_casts(x.c[0]) is not None and strip_casts(x.c[0]).k == "DeclRefExpr" \
+                    and "OrcVariable *" in (strip_casts(x.c[0]).ty or ""):
+                src, nm = x.c[1], strip_casts(x.c[0]).name
+            if src is not None and any(y.k == "MemberExpr" and y.name == "vars" and access_path(y.c[0]) in progs for y in src.walk()):
+                valias.add(nm)
+        for x in f.walk():
+            if x.k not in ("BinaryOperator", "CompoundAssignOperator") or not x.op.endswith("=") or x.op in ("==", "!=", "<=", ">="):
+                continue
+            lhs = strip_casts(x.c[0])
+            if lhs is None or lhs.k != "MemberExpr" or lhs.name != "size":
+                continue
+            b = strip_casts(lhs.c[0])
+            if b is not None and b.k == "DeclRefExpr" and b.name in valias:
+                pass                        # OrcVariable *v = P->vars + ...;  v->size = ...
+            else:
+                if b is None or b.k != "ArraySubscriptExpr":
+                    continue
+                bp = access_path(b.c[0]) or ""
+                if not bp.endswith("->vars") or bp.split("->")[0] not in progs or bp.count("->") != 1:
+                    continue
+            n += 1
+            rep.saw(f)
+            in_ctor = f.tu.base.startswith("orcprogram.") or f.relfile == "orc/orcprogram.c"
+            zero = strip_casts(x.c[1]) is not None and strip_casts(x.c[1]).v == 0
+            rep.check(in_ctor and not zero, rule, where(f), "%s:%s" % (f.name, x.line and "store" or "store"),
+                      "%s (constructor in orcprogram.c) fills the slot it has just counted" % f.name,
+                      "%s %s OrcProgram.vars[].size%s: the slots of a variable class are no longer dense, the bytecode writer skips the hole and the reader "
+                      "re-creates the remaining variables one slot lower, while instruction operands keep their absolute slot numbers - the "
+                      "reconstructed program names other variables" % (f.name, "stores to" if not zero else "clears", "" if in_ctor else " outside the constructors of orcprogram.c"),
+                      line=x.line)
+    if n < 8:
+        raise AnalysisBroken("only %d stores to OrcProgram.vars[].size found" % n)
